@@ -2,7 +2,7 @@
 # tools/run_all.sh <tier> [ids...]  - runs the checks one after another and prints exit code and wall time
 cd "$(dirname "$0")/.."
 TIER=${1:-quick}; shift
-IDS=${@:-C01 C02 C03 C04 C05 C07 C08 C09 C10 C11 C12 C13 C14 C15 C16 C17 C18 C19 C20}
+IDS=${@:-C01 C02 C03 C04 C05 C06 C07 C08 C09 C10 C11 C12 C13 C14 C15 C16 C17 C18 C19 C20}
 for i in $IDS; do
   S=$(date +%s)
   ./check $i --tier $TIER > /tmp/run_all_$i.log 2>&1
